@@ -53,7 +53,7 @@ Definition names_ok (o : op) (b : obs) : bool :=
 (* (4) in-memory state of a shard is gone once leadership is lost *)
 Definition drop_ok (o : op) (b : obs) : bool :=
   match o with
-  | OStopLeading sh => negb (zmem sh (map fst (snap b)))
+  | OStopLeading sh | OStopFlaky sh => negb (zmem sh (map fst (snap b)))
   | OLeaderCheck => forallb (fun p => zmem (fst p) (led_after b)) (snap b)
   | _ => true
   end.
